@@ -98,9 +98,14 @@ type Conn struct {
 }
 
 // Dial connects to a server listening on port (retrying while it starts).
-func Dial(port int) (*Conn, error) {
+func Dial(port int) (*Conn, error) { return DialWithin(port, time.Second) }
+
+// DialWithin is Dial with a given patience (stretched on an overloaded machine): a server that replays a long
+// append-only log before it listens needs more than the second a fresh server needs.
+func DialWithin(port int, d time.Duration) (*Conn, error) {
 	var last error
-	for i := 0; i < 200; i++ {
+	deadline := time.Now().Add(Patience(d))
+	for i := 0; i < 200 || time.Now().Before(deadline); i++ {
 		c, err := net.DialTimeout("tcp", "127.0.0.1:"+strconv.Itoa(port), time.Second)
 		if err == nil {
 			return &Conn{C: c, Timeout: 5 * time.Second}, nil
